@@ -70,6 +70,8 @@ def cases(tier, seed):
                             xl=[rng.choice([1, 100]), rng.choice([1, 3])], hdr={'seed': i, 'nfields': 1, 'inside': True})
         if i % 7 == 5:
             src['fmt'] = [2, 3, 8][(i // 7) % 3]          # integer sample formats
+        if i % 9 == 4:
+            src['sorting'] = 1                            # crossline-sorted file (the cube is the same, the trace order is not)
         routes = ['numpy', 'segyio', 'iops']
         if i % 4 == 0:
             routes.append('cli')
@@ -274,7 +276,7 @@ def run_case(case, ctx):
                         'detail': 'rate %r blockshape %r shape %s: %r' % (r_arg, bs_arg, D.shape, e)})
             continue
         counters['conversions'] += 1
-        strata.update(['route:' + route, 'rate:%s' % rate, 'fmt:%d' % src['fmt'], 'ext:%d' % case['src'].get('ext', 0),
+        strata.update(['sorting:%d' % case['src'].get('sorting', 2), 'route:' + route, 'rate:%s' % rate, 'fmt:%d' % src['fmt'], 'ext:%d' % case['src'].get('ext', 0),
                        'spelling:' + case['spelling']])
         strata.add('layout:' + ('default' if bs[:2] == (4, 4) else 'zslice' if bs[2] == 4 else '4xNxM' if bs[0] == 4 else 'general'))
         for ax, (s, b) in enumerate(zip(D.shape, bs)):
@@ -312,7 +314,7 @@ def run_case(case, ctx):
 
 def finalize(tier, cases, results, counters, strata):
     reasons = []
-    need = ['converter-reused', 'route:zgy-generated', 'route:zgy-cli-generated', 'zgy-layout:default', 'zgy-layout:zslice', 'zgy-layout:4xNxM', 'zgy-layout:general',
+    need = ['sorting:1', 'sorting:2', 'converter-reused', 'route:zgy-generated', 'route:zgy-cli-generated', 'zgy-layout:default', 'zgy-layout:zslice', 'zgy-layout:4xNxM', 'zgy-layout:general',
             'route:numpy', 'route:segyio', 'route:iops', 'route:cli', 'route:cli-sub', 'route:VdsConverter', 'route:ZgyConverter',
             'layout:default', 'layout:zslice', 'layout:4xNxM', 'layout:general', 'fmt:1', 'fmt:5', 'fmt:2', 'fmt:3', 'fmt:8', 'ext:0', 'ext:1', 'ext:2',
             'qcap:1', 'qcap:2', 'qcap:16', 'blocks:<1', 'blocks:>1', 'blocks:>2'] + ['res4:%d' % i for i in range(4)] + \
